@@ -109,9 +109,14 @@ def gen_custom(ch):
 
 
 def gen_case(ch):
-    mode = ch.weighted([(2, 'text'), (5, 'mutate'), (3, 'custom'), (1, 'valid')])
+    mode = ch.weighted([(2, 'text'), (5, 'mutate'), (3, 'custom'), (1, 'valid'), (1, 'long')])
     custom = None
-    if mode == 'text':
+    if mode == 'long':
+        # one token made very long (numbers beyond the interpreter's int<->str limit, huge names, long escapes)
+        n = ch.pick((50, 500, 4299, 4300, 4301, 5000, 9000))
+        pat = ch.pick([':nth-child({}n)', ':nth-child({})', ':nth-child(2n+{})', ':nth-last-of-type(-{}n-{})', '#i{}', '.\\{}',
+                       '[a="{}"]', 'a{}', ':nth-child({} of a)', '\\{} ']).replace('{}', ch.pick('1907') * n)
+    elif mode == 'text':
         pat = ch.text(ch.pick((5, 20, 200)), surrogates=True)
     elif mode == 'valid':
         pat = gen_valid(ch)
@@ -168,8 +173,8 @@ def judge(pattern, custom):
         return 'bad', 'exception-KeyError', f'{pattern!r} custom={custom!r}: {e!r}'
     except RecursionError as e:
         depth = max(t.count('(') for t in texts)
-        combs = max(len(t) for t in texts)
-        if depth > 60 or combs > 1000:
+        combs = max(sum(t.count(c) for c in ' >+~,') for t in texts)
+        if depth > 60 or combs > 100:
             return 'out-of-domain-recursion', None, ''
         return 'bad', 'exception-RecursionError', f'{pattern!r}: {e!r}'
     except Exception as e:  # noqa: BLE001
